@@ -1,0 +1,29 @@
+//go:build verif
+
+// Package verifhook carries the function variables through which the
+// deterministic-simulation harness (/verif) observes and steers product code
+// that was rewritten at check time. It contains no logic: with no hook
+// installed every function is a no-op or delegates to the standard library.
+// The package is compiled only with -tags verif.
+package verifhook
+
+import "sync/atomic"
+
+var pointFn atomic.Pointer[func(label string)]
+
+// SetPoint installs (or, with nil, removes) the scheduling-point hook.
+func SetPoint(f func(label string)) {
+	if f == nil {
+		pointFn.Store(nil)
+		return
+	}
+	pointFn.Store(&f)
+}
+
+// Point is called by instrumented product code before a statement. The
+// harness may park the calling goroutine here.
+func Point(label string) {
+	if f := pointFn.Load(); f != nil {
+		(*f)(label)
+	}
+}
